@@ -72,7 +72,7 @@ Definition inner_InSubtree (fx : fixes) (a r : root) : M wrapper (bool * bool) :
 Definition SetPin_body (r : root) (s : slot) : M wrapper unit :=
   w <- get ;;
   closest <- lift_o (ClosestToSlot (w_pa w) r s) ;;
-  if snd closest <? s then fail Err else put (set_pin w (Some (r, s))).
+  if snd closest <? s then fail Err else modify (fun w => set_pin w (Some (r, s))).
 Definition W_SetPin (r : root) (s : slot) : M wrapper unit := locked_call (SetPin_body r s).
 
 Definition W_ProcessAttestation (fx : fixes) (ix : N) (blockRoot : root) (headSlot : slot) : M wrapper bool :=
@@ -104,8 +104,7 @@ Definition updateJustified (fx : fixes) (finalized justified : checkpoint) (bal 
       w1 <- get ;;
       deltas <- lift_vs (ComputeDeltas fx (pa_idx (w_pa w1)) (w_bal w1) newBals) ;;
       lift_pa (ApplyScoreChanges fx deltas (fst justified) (fst finalized)) ;;;
-      w2 <- get ;;
-      put (set_cps w2 newBals justified finalized)
+      modify (fun w2 => set_cps w2 newBals justified finalized)
   end.
 
 Definition UpdateJustified_body (fx : fixes) (sink : sink_fn) (trigger : root) (justified finalized : checkpoint)
@@ -124,12 +123,10 @@ Definition UpdateJustified_body (fx : fixes) (sink : sink_fn) (trigger : root) (
   (if f_argorder fx then updateJustified fx finalized justified bal
    else updateJustified fx justified finalized bal) ;;;
   if negb (cp_eqb prevFinalized finalized) then
-    w1 <- get ;;
-    put (set_pin w1 None) ;;;
-    finSlot <- lift_o (epoch_start (w_spe w1) (fst finalized)) ;;
+    modify (fun w1 => set_pin w1 None) ;;;
+    finSlot <- lift_o (epoch_start (w_spe w) (fst finalized)) ;;
     r <- lift_pa (OnPrune_core fx sink (snd finalized) finSlot) ;;
-    w2 <- get ;;
-    put (set_log w2 (w_log w2 ++ fst r)) ;;;
+    modify (fun w2 => set_log w2 (w_log w2 ++ fst r)) ;;;
     if snd r then fail Err else ret tt
   else ret tt.
 
